@@ -145,6 +145,16 @@ fn seed_bytes(seed: u64, id: &str, worker: u64, round: u64) -> [u8; 32] {
   h.finalize().into()
 }
 
+/// Phase marker of the case a worker is running. A check whose property
+/// covers the termination of one operation only (a walk, say, but not the
+/// build that precedes it) sets `PHASE_COVERED` while that operation runs: a
+/// hang observed then is a violation even when crashes elsewhere are not.
+pub static PHASE: std::sync::atomic::AtomicU8 = std::sync::atomic::AtomicU8::new(0);
+pub const PHASE_COVERED: u8 = 2;
+pub fn set_phase(p: u8) {
+  PHASE.store(p, Ordering::SeqCst);
+}
+
 pub fn env_seed() -> u64 {
   std::env::var("VERIF_SEED")
     .ok()
@@ -167,6 +177,8 @@ pub struct WorkerReport {
   pub excluded_panics: Vec<(String, serde_json::Value)>,
   pub suppressed_repeat_hits: u64,
   pub hang: Option<serde_json::Value>,
+  #[serde(default)]
+  pub hang_phase: u8,
 }
 
 #[derive(Debug, Clone, Serialize, Deserialize)]
@@ -306,6 +318,7 @@ pub fn worker_main<C>(
             .unwrap_or(serde_json::Value::Null);
           let rep = WorkerReport {
             hang: Some(case),
+            hang_phase: PHASE.load(Ordering::SeqCst),
             ..Default::default()
           };
           let _ = std::fs::write(
@@ -353,6 +366,7 @@ pub fn worker_main<C>(
         let _ = f.write_all(&text);
         let _ = f.set_len(text.len() as u64);
       }
+      set_phase(0);
       case_started
         .store(t0.elapsed().as_millis().max(1) as u64, Ordering::SeqCst);
       let res = run_check(spec.check, &case, tier);
@@ -749,12 +763,16 @@ where
   let mut excluded_panics = Vec::new();
   let mut crashed: Vec<serde_json::Value> = Vec::new();
   let mut hangs: Vec<serde_json::Value> = Vec::new();
+  let mut covered_hangs: BTreeSet<u64> = BTreeSet::new();
   for (w, mut child, out, cur) in children {
     let status = child.wait().expect("wait worker");
     if status.code() == Some(3) {
       if let Ok(t) = std::fs::read_to_string(out.with_extension("hang.json")) {
         if let Ok(r) = serde_json::from_str::<WorkerReport>(&t) {
           if let Some(h) = r.hang {
+            if r.hang_phase == PHASE_COVERED {
+              covered_hangs.insert(hash_json(&h));
+            }
             hangs.push(h);
           }
         }
@@ -813,6 +831,15 @@ where
       if violations.iter().any(|v| v.sig == format!("{}/{kind}", spec.id)) {
         break;
       }
+      // without a termination clause one confirmation attempt per kind is
+      // enough for the harness-error report
+      let covered = kind == "hang" && covered_hangs.contains(&hash_json(c));
+      if !spec.crash_is_violation
+        && !covered
+        && harness_errors.iter().any(|e| e.starts_with(&format!("{kind} while running a case")))
+      {
+        continue;
+      }
       let p = replay_dir.join(format!("{kind}-{:016x}.json", hash_json(c)));
       std::fs::write(&p, serde_json::to_string_pretty(c).unwrap()).unwrap();
       let st = std::process::Command::new(&exe)
@@ -826,7 +853,7 @@ where
         Ok(s) => !(s.code() == Some(0) || s.code() == Some(1)),
         Err(_) => false,
       };
-      if confirmed && spec.crash_is_violation {
+      if confirmed && (spec.crash_is_violation || covered) {
         violations.push(FoundViolation {
           sig: format!("{}/{kind}", spec.id),
           msg: format!("confirmed {kind} in a fresh process"),
